@@ -57,6 +57,8 @@ def main():
                 if tests != "-":
                     ran["tests_with_change"] = tests
                 ran["confirmed"] = "harness/seeded.py: patch applies to a copy of /repo HEAD; demo.py exits %d with the change and %d without" % (dm.returncode, dc.returncode)
+                if tier + "_check" in ran and "first_contact" not in ran:      # what the check said before it was hardened for this seed
+                    ran["first_contact"] = ran[tier + "_check"].split(" (./check")[0]
                 ran[tier + "_check"] = "%s (./check %s --tier %s with VERIF_REPO=<patched scratch copy>)%s" % (
                     status.split(" rc=")[0], meta["property"], tier, (": " + detail[0].strip()[:200]) if detail else "")
                 json.dump(meta, open(os.path.join(d, "meta.json"), "w"), indent=1)
